@@ -2,10 +2,13 @@
 
 K: the text written by `to_smtlib(daggify=False/True)`, `smtlibscript_from_formula(f).serialize`, `write_smtlib` is read by
    the Lean standard reader (`Spec/Sexp.lean`) and compared, as S-expressions, with the model (`Impl/Printer.lean`:
-   `toSexp`, `toSexpDag`, `scriptOfFormula`; let names exactly, declarations as a multiset).
+   `toSexp`, `toSexpDag`, `scriptOfFormula`; let names exactly, declarations as a multiset). Multi-command scripts
+   (SmtLibScript objects with set-logic, declare-sort/fun/const, 2-4 asserts, push/pop, check-sat; one printer object for all
+   commands) are compared command by command with `scriptOfCmds`, which prints every assertion with a fresh name table.
 S: independent of the printer model: `chk_print` elaborates the implementation's text with the standard's reading
    (`Spec/SmtlibText.lean: readStd`) in the environment of the formula's own symbols and compares sort and value under sampled
-   interpretations; `chk_script` runs the serialised script through `runStd` (declared before use, declared once).
+   interpretations; `chk_script` runs the serialised script through `runStd` (declared before use, declared once);
+   `chk_cmds` does the same for multi-command scripts and compares every live assertion with the formula it was produced from.
 """
 import io
 import os
